@@ -181,11 +181,13 @@ theorem withBase_head_drive (c : SplitCfg) (s : List GPart)
     (hd : ∀ q, s.head? = some q → q.isDrive = true → q = drivePart) :
     ((withBase c s).head?.map (·.isDrive)).getD false = (s.head?.map (·.isDrive)).getD false := by
   unfold withBase
-  by_cases hb : needBase c s = true
+  by_cases hb : (needBase c s && !((s.head?.map (·.isGlobstar)).getD false)) = true
   · simp only [hb, if_true, List.head?_cons, Option.map_some, Option.getD_some]
     have hbase : (basePart c).isDrive = false := by
       rcases basePart_cases c with ⟨h, _, _⟩ | h <;> rw [h]
     rw [hbase]
+    rw [Bool.and_eq_true] at hb
+    replace hb := hb.1
     unfold needBase at hb
     cases hs : s.head? with
     | none => rfl
